@@ -408,6 +408,10 @@ class Fn:
             truth = not truth
         cmpk = cmp_of(e)
         if cmpk and truth is not None:
+            if cmpk[0] == 'Ne':
+                # `a != b` on one edge is exactly `a == b` on the other (also for NaN): one canonical form
+                cmpk = ('Eq', cmpk[1], cmpk[2])
+                truth = not truth
             rec.update(kind=cmpk[0], a=cmpk[1], b=cmpk[2], truth=truth)
             return rec
         if truth is not None:
